@@ -22,6 +22,7 @@ from bounded import C15_hist as H
 from specs import C15_bigmap_ref as S
 
 OID = 'BigMapType::'
+COMBS = ('comb4_int', 'comb5_mixed', 'or_comb4', 'option_comb4')
 
 
 def replay(case):
@@ -38,12 +39,16 @@ def _plan(thorough):
     if not thorough:
         for uni in ('string', 'pair_nat_string', 'or_int_bool'):
             plan += [(uni, c, 3, False, False) for c in cfgs]
-        plan += [('string', c, 4, False, False) for c in ('fresh', 'chain2', 'chain5', 'lit2', 'lit5')]
+        for uni in COMBS:
+            plan += [(uni, c, 2, False, False) for c in cfgs]
+        plan += [('comb4_int', c, 3, False, False) for c in ('fresh', 'chain5', 'lit5')]
+        plan += [('string', c, 4, False, False) for c in ('fresh', 'chain5', 'lit5')]
     else:
         for uni in ('string', 'pair_nat_string', 'bytes'):
             plan += [(uni, c, 4, False, False) for c in cfgs]
-        for uni in ('nat', 'or_int_bool'):
+        for uni in ('nat', 'or_int_bool') + COMBS:
             plan += [(uni, c, 3, False, False) for c in cfgs]
+        plan += [('comb4_int', c, 4, False, False) for c in ('fresh', 'chain5', 'lit5')]
         plan += [('string', c, 5, False, False) for c in ('fresh', 'chain0', 'chain5', 'chain7', 'lit5', 'lit7')]
     return plan
 
@@ -62,15 +67,18 @@ def run_R(ck):
     n, bad = S.validate_against_recorded(sorted(glob.glob(str(REPO / 'tests/contract_tests/**/*.json'), recursive=True)), 1000)
     if bad:
         raise RuntimeError(f'oracle self-check failed: script_expr hash differs from {len(bad)} recorded key hashes, e.g. {bad[0]}')
-    ck.note(f'C15 oracle self-check: script_expr(PACK(key)) reproduces {n} recorded (key, key_hash) pairs of tests/contract_tests')
+    if not S.validate_comb_hash():
+        raise RuntimeError('oracle self-check failed: the recorded key hash of `pair int int int int` (1,1,1,1) is not reproduced by the nested form')
+    ck.note(f'C15 oracle self-check: script_expr reproduces {n} recorded (key, key_hash) pairs of tests/contract_tests and the recorded '
+            'hash expruN32WETs… of the 4-comb (1,1,1,1) in its nested (legacy optimized) form, which differs from the sequence form')
     ck.assume('on-chain big_map contents are served by a stub RpcNode behind the real ShellQuery '
               '(GET …/context/big_maps/<id>/<script_expr>, 404 -> RpcError for an absent key); the script_expr of the stub is the oracle\'s')
     ck.assume('C15-R enumerates by depth-first walk sharing prefixes: BigMapType operations return new objects and the harness never '
               'mutates a big_map, so the object reached by a history is reused for its extensions')
     thorough = ck.thorough()
     plan = _plan(thorough)
-    ck.bound('C15_history_length', {'quick': 'all histories <= 3 (3 key types x 16 big_maps); <= 4 for string keys on 5 big_maps',
-                                    'thorough': 'all histories <= 4 (3 key types x 16 big_maps), <= 3 (2 more key types), <= 5 for string keys on 6 big_maps'}[ck.tier])
+    ck.bound('C15_history_length', {'quick': 'all histories <= 3 (3 key types x 16 big_maps); <= 2 for the 4 comb key types x 16 big_maps (<= 3 for the 4-comb on 3); <= 4 for string keys on 3 big_maps',
+                                    'thorough': 'all histories <= 4 (3 key types x 16 big_maps), <= 3 (6 more key types incl. the 4 comb key types; <= 4 for the 4-comb on 3 big_maps), <= 5 for string keys on 6 big_maps'}[ck.tier])
     ck.bound('C15_operations', '18 = {GET, MEM, UPDATE Some, UPDATE None, GET_AND_UPDATE Some, GET_AND_UPDATE None} x 3 keys; every write stores a new value')
     ck.bound('C15_big_maps', 'fresh (EMPTY_BIG_MAP); on-chain id with each of the 8 subsets of the 3 keys on chain; literal-initialised with each of the 7 non-empty subsets')
     ck.bound('C15_key_universes', {k: [repr(x) for x in v[1]] for k, v in H.UNIVERSES.items()})
